@@ -337,6 +337,29 @@ theorem wf_kind (v : GoVal) (t : GoType) (h : v.wf = true) (ht : v.typeOf? = som
   have := wf_shapeOK v h
   simpa [GoVal.shapeOK, ht] using this
 
+/-! ## a `flyt.Result` used as a value -/
+
+theorem result_wf (v e : GoVal) : (GoVal.result v e).wf = (v.wf && e.wf) := by
+  simp [GoVal.result, GoVal.wf, tResult, tError, GoType.underlying, GoVals.wfFields, slotOK, GoType.kind]
+
+/-- `Result{v, e} == Result{v, e}`: the struct type is comparable, the fields are compared in order -/
+theorem result_ifaceEq (v e : GoVal) :
+    ifaceEq (GoVal.result v e) (GoVal.result v e) = match ifaceEq v v with | .eq => ifaceEq e e | x => x := by
+  simp only [GoVal.result, ifaceEq, elemsEq]
+  have hc : tResult.comparable = true := by decide
+  rw [typeGuard_self_comparable _ _ hc]
+  cases ifaceEq v v <;> simp
+  cases ifaceEq e e <;> rfl
+
+/-- no accessor has a case for it; `ToSlice` takes the single-item path -/
+theorem result_accessors (c : Conv) (v e : GoVal) :
+    asString (GoVal.result v e) = ("", false) ∧ asInt c (GoVal.result v e) = (some 0, false)
+    ∧ asFloat64 c (GoVal.result v e) = (0, false) ∧ asBool (GoVal.result v e) = (false, false)
+    ∧ asMap (GoVal.result v e) = (none, false) ∧ asSlice (GoVal.result v e) = .ok (none, false)
+    ∧ toSlice (GoVal.result v e) = some [GoVal.result v e] := by
+  refine ⟨rfl, rfl, rfl, rfl, rfl, ?_, rfl⟩
+  rw [asSlice_closed]; rfl
+
 /-! ## `As` against the expected outcome of the specification -/
 
 theorem asString_exp (v : GoVal) :
@@ -371,6 +394,44 @@ theorem asFloat64_exp (c : Conv) (v : GoVal) (h : v.wf = true) :
     | (intro _; exact ⟨rfl, rfl⟩)
     | (intro h; simp [GoVal.wf, GoType.underlying, Basic.range] at h; done)
 
+/-! ## the generic accessors `As[T]` / `MustAs[T]` -/
+
+theorem typeOf?_none_iff (v : GoVal) : v.typeOf? = none ↔ v = .nil := by
+  cases v <;> simp [GoVal.typeOf?]
+
+theorem asT_exp (t : GoType) (v : GoVal) :
+    (asT t v).2 = Spec.expAs t v ∧ (asT t v).1 = (if Spec.expAs t v then v else zeroOf t) := by
+  unfold asT Spec.expAs
+  cases h : v.typeOf? with
+  | none =>
+    have := (typeOf?_none_iff v).1 h
+    subst this; simp
+  | some u =>
+    have hn : v ≠ .nil := by intro e; subst e; simp [GoVal.typeOf?] at h
+    by_cases hc : t = .any ∨ u = t
+    · simp [hc, hn]
+    · have hc' := hc
+      simp only [not_or] at hc'
+      simp [hc'.1, hc'.2]
+
+theorem mustT_eq (t : GoType) (v : GoVal) :
+    mustT t v = if (asT t v).2 then .ok (asT t v).1 else .panic := by
+  unfold mustT; cases h : (asT t v).2 <;> simp [h]
+
+theorem genOK1_model (t : GoType) (v : GoVal) : Spec.genOK1 t v (.ok (asT t v), mustT t v) = true := by
+  obtain ⟨h1, h2⟩ := asT_exp t v
+  simp only [Spec.genOK1, mustT_eq, h1, h2]
+  cases Spec.expAs t v <;> simp
+
+theorem all_zip_map {α β} (l : List α) (f : α → β) (g : α × β → Bool) (h : ∀ a, g (a, f a) = true) :
+    (l.zip (l.map f)).all g = true := by
+  induction l with
+  | nil => rfl
+  | cons a l ih => simp only [List.map_cons, List.zip_cons_cons, List.all_cons, h a, ih, Bool.and_self]
+
+theorem genOK_model (v : GoVal) : Spec.genOK v (genTargets.map fun t => (.ok (asT t v), mustT t v)) = true := by
+  simp only [Spec.genOK, List.length_map, beq_self_eq_true, Bool.true_and]
+  exact all_zip_map _ _ _ (fun t => genOK1_model t v)
 /-! ## assembling one family of the specification -/
 
 theorem Spec.famOK_of {α β} [DecidableEq α] [DecidableEq β] (nf : α → β) (z d : α) (e : Option α)
